@@ -459,7 +459,13 @@ int main()
                 {
                     Binding b; b.kind = t[2][0];
                     if (t[2] == "b") b.b = t[3] == "1";
-                    else if (t[2] == "n") b.n = DoubleSupport::toDouble(domOfUtf8(t[3]), XalanMemMgrs::getDefaultXercesMemMgr());
+                    else if (t[2] == "n")
+                    {
+                        // "Infinity" is not an XPath number (toDouble gives NaN): bind the IEEE value itself
+                        if (t[3] == "Infinity") b.n = DoubleSupport::getPositiveInfinity();
+                        else if (t[3] == "-Infinity") b.n = DoubleSupport::getNegativeInfinity();
+                        else b.n = DoubleSupport::toDouble(domOfUtf8(t[3]), XalanMemMgrs::getDefaultXercesMemMgr());
+                    }
                     else if (t[2] == "s") b.s = domOfUtf8(unhex(t[3]));
                     else if (t[2] == "r")
                     {
